@@ -183,6 +183,33 @@ def avoid_listed_mechanisms(rng, desc, rules, writer, kerning, groups):
     return new_kerning, new_groups
 
 
+def script_chain_kerning(rng, desc, skip):
+    """Kerning whose script sets overlap only pairwise, in an order that needs more than one
+    merging pass: {A}, then {B, C}, then the bridge {A, B}, then a pure-C pair (the kern writer
+    puts pairs whose script sets are transitively connected into ONE lookup)."""
+    by = {}
+    for n, d in desc.items():
+        if d["kind"] == "letter" and len(set(d["script"])) == 1 and not d["mark"] and n not in skip:
+            by.setdefault(d["script"][0], []).append(n)
+    scr = [s_ for s_ in ("Latn", "Cyrl", "Grek") if len(by.get(s_, [])) >= 3]
+    if len(scr) < 3:
+        return None
+    rng.shuffle(scr)
+    A, B, C = (by[x] for x in scr)
+    for l in (A, B, C):
+        rng.shuffle(l)
+    val = lambda: rng.choice([-80, -50, -25, -7, 10, 30, 42, 60])  # noqa: E731
+    groups = {"public.kern1.BC": [B[0], C[0]], "public.kern1.AB": [A[2], B[1]]}
+    kerning = [[A[0], A[1], val()],
+               ["public.kern1.BC", C[1], val()],
+               ["public.kern1.AB", rng.choice([B[2], A[1]]), val()],
+               [C[2], C[1], val()],
+               [C[0], C[2], val()]]
+    if rng.random() < 0.5:
+        kerning.append([B[2], B[0], val()])
+    return kerning, groups
+
+
 def gen(rng, idx, tier):
     r = rng.random()
     stratum = "default"
@@ -193,7 +220,10 @@ def gen(rng, idx, tier):
         scripts = rng.sample(["Arab", "Hebr"], rng.choice([1, 1, 2]))
     elif r < 0.9:
         scripts = [rng.choice(["Arab", "Hebr"]), rng.choice(["Latn", "Cyrl", "Grek"])]
-    glyphs, desc = S.repertoire(rng, scripts=scripts, n=rng.choice([4, 6, 8, 10]))
+    chain = r < 0.45 and rng.random() < 0.12
+    if chain:
+        scripts = rng.sample(["Latn", "Cyrl", "Grek"], 3)
+    glyphs, desc = S.repertoire(rng, scripts=scripts, n=12 if chain else rng.choice([4, 6, 8, 10]))
     writer = rng.choice(["new", "new", "legacy"])
     names = [g["name"] for g in glyphs if g["name"] != ".notdef"]
     rules = S.rules_for(desc)
@@ -205,6 +235,10 @@ def gen(rng, idx, tier):
         if cands:
             skip = rng.sample(cands, min(len(cands), rng.randint(1, 2)))
     kerning, groups = gen_kerning(rng, names, skip)
+    if chain:
+        ck = script_chain_kerning(rng, desc, skip)
+        if ck:
+            kerning, groups = ck
     has_rtl = any(S.script_direction(s_) == "RTL" for d in desc.values() for s_ in d["script_ext"])
     if has_rtl:
         q0 = rng.random()
@@ -246,7 +280,7 @@ def gen(rng, idx, tier):
                     g["width"] = 120
     if skip:
         lib["public.skipExportGlyphs"] = skip
-    return {"stratum": stratum,
+    return {"stratum": stratum, "chain": chain,
             "ufo": {"glyphs": glyphs, "kerning": kerning, "groups": groups, "features": features,
                     "lib": lib, "info": {"unitsPerEm": 1000, "familyName": "T", "styleName": "R"}},
             "rules": rules, "lib": rng.choice(["defcon", "ufoLib2"]),
@@ -335,6 +369,8 @@ def run(case):
         bump("fonts_without_gpos")
     else:
         bump("fonts_judged")
+    if case.get("chain"):
+        bump("script_chain_fonts")
     if case["writer"] == "legacy":
         bump("legacy_writer_fonts")
     if q != 1:
